@@ -253,6 +253,11 @@ def run(cfg, sched):
             out.hooks["setup"](sim, p, out)
         ctx = p if cfg.get("use_with") else contextlib.nullcontext()
         try:
+            if "script" in out.hooks:
+                # a harness-defined sequence of operations instead of the standard call loop
+                out.hooks["script"](sim, p, out, lambda call_no, n, **k: Tasks(sim, call_no, n, task, k.get("iter_fail_at"), out.iter_log))
+                ctx = contextlib.nullcontext()
+                cfg = dict(cfg, calls=[])
             with ctx:
                 for call_no, c in enumerate(cfg["calls"]):
                     rec = {"call": call_no, "result": None, "exc": None, "taken_before": len(out.iter_log)}
